@@ -29,6 +29,7 @@ sha1 = "=0.11.0-pre.5"
 base64-simd = "0.8"
 hex-simd = "0.8"
 time = {{ version = "0.3", features = ["formatting", "macros"] }}
+tracing = "0.1"
 '''
 p = os.path.join(here, "Cargo.toml")
 if not os.path.exists(p) or open(p).read() != toml:
